@@ -1,7 +1,7 @@
 (* C15 -- A schedule's stream depends only on its own parameters
    Property theorems only: each proof is one application of a lemma proved in Proofs/, followed by Print Assumptions. *)
 From Coq Require Import ZArith List Bool.
-From CS Require MemoCoh SchedProofs GenLang GenBasic GenLang2 GenTwo GenLang3 GenMulti GenLang4 GenConv GenLang5 GenMixed SeqGenSpec HSeqGenSpec ArgminGenSpec HoptGenSpec OptInfGenSpec Opt0GenSpec TabulGenSpec.
+From CS Require MemoCoh SchedProofs GenLang GenBasic GenLang2 GenTwo GenLang3 GenMulti GenLang4 GenConv GenLang5 GenMixed SeqGenSpec HSeqGenSpec ArgminGenSpec HoptGenSpec OptInfGenSpec Opt0GenSpec TabulGenSpec HelperCoh MixHelperCoh HelperGenSpec MixHelperSpec.
 From CS Require Import Actions NAdvance Multistage Exec Sched RunFacts Projections BasicInv MultistageRun AllocTotal TLBridge MixBridge.
 Import ListNotations.
 Open Scope Z_scope.
@@ -233,4 +233,53 @@ Theorem C15_history_independent :
 Proof. exact (@MemoCoh.C15_history_independent). Qed.
 Print Assumptions C15_history_independent.
 End M_C15_history_independent.
+
+(* THE SECOND PROCESS-GLOBAL CACHE (cache_step around optimal_extra_steps, Model/Binomial.v EmS with the dictionary explicit -- the form the extracted driver runs and the correspondence compares with the implementation): every dictionary reachable by any sequence of calls holds only valid keys with the value EC n s of the pure dynamic program *)
+Module M_C15_helper_cache_coherent.
+Import HelperCoh.
+Theorem C15_helper_cache_coherent :
+  forall (fuel : nat) (qs : list (Z * Z)), Coh (run_callsE fuel [] qs).
+Proof. exact (@HelperCoh.helper_cache_coherent). Qed.
+Print Assumptions C15_helper_cache_coherent.
+End M_C15_helper_cache_coherent.
+
+(* ... so a successful call returns, whatever the call history, the value of the pure recursion Binomial.Em (= BinomDP.Em by HelperCoh.Em_cv, which Gen/HelperGen.v proves to be the translated source of optimal_extra_steps) *)
+Module M_C15_helper_history_independent.
+Import HelperCoh.
+Theorem C15_helper_history_independent :
+  forall (fuel : nat) (qs : list (Z * Z)) (n s v : Z),
+         snd (Binomial.EmS fuel (run_callsE fuel [] qs) n s) = Actions.Ok v ->
+         v = EC n s /\ Binomial.Em (Z.to_nat n) n s = Actions.Ok v.
+Proof. exact (@HelperCoh.helper_history_independent). Qed.
+Print Assumptions C15_helper_history_independent.
+End M_C15_helper_history_independent.
+
+(* THE PUBLISHED HELPER IS THE SOURCE: HelperGenSpec.oes_shape / osb_shape are the Gallina functions harness/translate.py (HelperTr) renders from optimal_extra_steps (behind cache_step: the clamp s = min(s, n - 1), the dictionary being a pure memo) and optimal_steps_binomial of multistage.py -- the recursion on explicit fuel, `for i in range(1, n)` as py_forB over the optional running best; Gen/HelperGen.v re-translates the current source on every run and proves the result equal to these terms by conversion.  The shape is equal, for every fuel and argument, to BinomDP.Em, the dynamic program C05_chain / C05_gw_main are proved about *)
+Module M_C15_helper_source_is_pure.
+Import HelperGenSpec.
+Theorem C15_helper_source_is_pure :
+  forall (fuel : nat) (n s : Z), oes_shape fuel n s = BinomDP.Em fuel n s.
+Proof. exact (@HelperGenSpec.oes_shape_is_Em). Qed.
+Print Assumptions C15_helper_source_is_pure.
+End M_C15_helper_source_is_pure.
+
+(* THE THIRD PROCESS-GLOBAL CACHE (cache_step around optimal_steps_mixed, Model/Binomial.v OsmS): every reachable dictionary holds only valid keys with the cost MixDP.C n s of the canonical plan *)
+Module M_C15_mixhelper_cache_coherent.
+Import MixHelperCoh.
+Theorem C15_mixhelper_cache_coherent :
+  forall (fuel : nat) (qs : list (Z * Z)), Coh (run_callsX fuel [] qs).
+Proof. exact (@MixHelperCoh.mixhelper_cache_coherent). Qed.
+Print Assumptions C15_mixhelper_cache_coherent.
+End M_C15_mixhelper_cache_coherent.
+
+(* ... so a successful call returns, whatever the call history, the value of the pure recursion MixHelperSpec.osm_shape, which Gen/MixHelperGen.v proves to be the translated source of optimal_steps_mixed *)
+Module M_C15_mixhelper_history_independent.
+Import MixHelperCoh.
+Theorem C15_mixhelper_history_independent :
+  forall (fuel : nat) (qs : list (Z * Z)) (n s v : Z),
+         snd (Binomial.OsmS fuel (run_callsX fuel [] qs) n s) = Actions.Ok v ->
+         v = MixDP.C n s /\ MixHelperSpec.osm_shape (Z.to_nat n) n s = Actions.Ok v.
+Proof. exact (@MixHelperCoh.mixhelper_history_independent). Qed.
+Print Assumptions C15_mixhelper_history_independent.
+End M_C15_mixhelper_history_independent.
 
